@@ -51,7 +51,7 @@ def computeOp? (s : String) : Option (String × Nat) :=
 def compareOp? (s : String) : Option String := (Gen.compareHash.find? (·.1 == s)).map (·.2)
 
 /-- `pop()` -/
-def pop : List Tok → R Tok | [] => .error (.py .IndexError) | t :: r => .ok (t, r)
+def pop : List Tok → R Tok | [] => .error .parse | t :: r => .ok (t, r)
 /-- `search_one_type_str_use_upper` -/
 def searchStrUp (ts : List Tok) (k : String) : Bool := match ts with | t :: _ => Tok.srcEqUp t k | [] => false
 /-- `search_one_type_str` -/
@@ -70,7 +70,7 @@ def moveStr (ts : List Tok) (k : String) : Bool × List Tok := if searchStr ts k
 def moveSetUp (ts : List Tok) (ks : List String) : Bool × List Tok := if searchSetUp ts ks then (true, ts.drop 1) else (false, ts)
 /-- `match(k)` for one keyword: pops, then compares -/
 def matchKw (ts : List Tok) (k : String) : R Unit :=
-  match ts with | [] => .error (.py .IndexError) | t :: r => if t.equalsStr k then .ok ((), r) else .error .parse
+  match ts with | [] => .error .parse | t :: r => if t.equalsStr k then .ok ((), r) else .error .parse
 /-- `search(*tokens)` with string patterns -/
 def searchSeq : List Tok → List String → Bool
   | _, [] => true
@@ -88,7 +88,7 @@ def moveThreeUp (ts : List Tok) (a b c : String) : Bool × List Tok := if search
 /-- `match(*tokens)`: pops before comparing, so a failed match has advanced -/
 def matchSeq : List Tok → List String → R Unit
   | ts, [] => .ok ((), ts)
-  | [], _ :: _ => .error (.py .IndexError)
+  | [], _ :: _ => .error .parse
   | t :: ts, k :: ks => if t.equalsStr k then matchSeq ts ks else .error .parse
 /-- `for m in Enum: if search_and_move(*m.value): return m` -/
 def firstEnum (tbl : List (String × List String)) (ts : List Tok) : Option (String × List Tok) :=
@@ -96,7 +96,7 @@ def firstEnum (tbl : List (String × List String)) (ts : List Tok) : Option (Str
   | [] => none
   | (n, ks) :: rest => if searchSeq ts ks then some (n, ts.drop ks.length) else firstEnum rest ts
 /-- `pop_as_source()` -/
-def popSrc : List Tok → R String | [] => .error (.py .IndexError) | t :: r => .ok (t.src, r)
+def popSrc : List Tok → R String | [] => .error .parse | t :: r => .ok (t.src, r)
 
 /-- the `close()` discipline: a sub-cursor must be exhausted -/
 def closed {α : Type} (res : R α) : Except Err α :=
@@ -130,8 +130,11 @@ def pyInt (s : String) : Except Err Int :=
   if isAsciiIntBody (intBody cs) then
     .ok (if cs.head? == some '-' then -(Int.ofNat (digitsVal (intBody cs))) else Int.ofNat (digitsVal (intBody cs)))
   else .error (.py .ValueError)
+/-- `_pop_as_int`: a `ValueError` of `int()` becomes `SqlParseError` -/
 def popInt (ts : List Tok) : R Int :=
-  match ts with | [] => .error (.py .IndexError) | t :: r => (match pyInt t.src with | .ok n => .ok (n, r) | .error e => .error e)
+  match ts with
+  | [] => .error .parse
+  | t :: r => (match pyInt t.src with | .ok n => .ok (n, r) | .error (.py .ValueError) => .error .parse | .error e => .error e)
 
 /-- `is_int_literal` (`^[+-]?\d+$`) on a token source -/
 def isIntLiteral (s : String) : Bool := let b := intBody s.toList; !b.isEmpty && b.all Char.isDigit
@@ -140,11 +143,11 @@ def asInt (s : String) : Except Err Int :=
   if hasNonAscii s then .error (.unmodelled "as_int of non-ASCII text") else
   if isIntLiteral s then pyInt s else .error .parse
 def popAsInt (ts : List Tok) : R Int :=
-  match ts with | [] => .error (.py .IndexError) | t :: r => (match asInt t.src with | .ok n => .ok (n, r) | .error e => .error e)
+  match ts with | [] => .error .parse | t :: r => (match asInt t.src with | .ok n => .ok (n, r) | .error e => .error e)
 
 def startsSelect (cs : List Tok) : Bool := searchSetUp cs ["SELECT", "WITH"]
 def headIsOver (ts : List Tok) : Bool := match ts with | t :: _ => t.srcEqUp "OVER" | [] => false
 /-- `get_as_children_scanner()` on a possibly exhausted cursor: `None.children` -/
-def headChildren (ts : List Tok) : Except Err (List Tok) := match ts with | t :: _ => .ok t.children | [] => .error (.py .AttributeError)
+def headChildren (ts : List Tok) : Except Err (List Tok) := match ts with | t :: _ => .ok t.children | [] => .error .parse
 
 end PM
